@@ -92,6 +92,68 @@ def b01 (b : Bool) : String := if b then "1" else "0"
 
 end Codec
 
+namespace AstCodec
+open Codec Semver.Spec.Npm
+
+def encNP : NP → String
+  | .any => "A"
+  | .maj M => s!"J,{M}"
+  | .majMin M m => s!"N,{M},{m}"
+  | .full M m p pre build => s!"F,{M},{m},{p},{encodeIdents pre},{encodeIdents build}"
+
+def encOp : Op → String
+  | .lt => "lt" | .le => "le" | .gt => "gt" | .ge => "ge" | .eq => "eq"
+
+def encSimple : Simple → String
+  | .prim op p => s!"P{encOp op}:{encNP p}"
+  | .bare p => s!"B:{encNP p}"
+  | .tilde p => s!"T:{encNP p}"
+  | .caret p => s!"C:{encNP p}"
+  | .garbage t => s!"G:{encodeText t}"
+
+def encAlt : Alt → String
+  | .hyphen lo hi => s!"H/{encNP lo}/{encNP hi}"
+  | .simples l => "S/" ++ "/".intercalate (l.map encSimple)
+
+def encAst (r : Ast) : String := "|".intercalate (r.map encAlt)
+
+def decNP (f : String) : Option NP :=
+  match f.splitOn "," with
+  | ["A"] => some .any
+  | ["J", m] => m.toNat?.map NP.maj
+  | ["N", a, b] => do pure (.majMin (← a.toNat?) (← b.toNat?))
+  | ["F", a, b, c, p, q] => do
+    pure (.full (← a.toNat?) (← b.toNat?) (← c.toNat?) (← decodeIdents p) (← decodeIdents q))
+  | _ => none
+
+def decOp : String → Option Op
+  | "lt" => some .lt | "le" => some .le | "gt" => some .gt | "ge" => some .ge | "eq" => some .eq
+  | _ => none
+
+def decSimple (f : String) : Option Simple :=
+  match f.splitOn ":" with
+  | [k, body] =>
+    if k == "B" then (decNP body).map Simple.bare
+    else if k == "T" then (decNP body).map Simple.tilde
+    else if k == "C" then (decNP body).map Simple.caret
+    else if k == "G" then (decodeText body).map Simple.garbage
+    else if k.startsWith "P" then do
+      let op ← decOp (k.drop 1).toString
+      let p ← decNP body
+      pure (.prim op p)
+    else none
+  | _ => none
+
+def decAlt (f : String) : Option Alt :=
+  match f.splitOn "/" with
+  | ["H", a, b] => do pure (.hyphen (← decNP a) (← decNP b))
+  | "S" :: rest => (rest.mapM decSimple).map Alt.simples
+  | _ => none
+
+def decAst (f : String) : Option Ast := (f.splitOn "|").mapM decAlt
+
+end AstCodec
+
 open Codec
 
 /-- printed form of an optional range result -/
@@ -221,6 +283,10 @@ def answer (op : String) (args : List String) : String :=
     match decodeVersion v with
     | some v => withRange r (fun r => b01 (r.satisfies v))
     | none => "badreq"
+  | "npm", [_ast, t, v] =>
+    match decodeVersion v with
+    | some v => withRange t (fun r => b01 (r.satisfies v))
+    | none => "badreq"
   | "isect", [a, b] => with2Ranges a b (fun a b => showRangeOpt (a.intersect b))
   | "rdiff", [a, b] => with2Ranges a b (fun a b => match a.difference b with
       | some r => showRangeOpt r
@@ -251,6 +317,40 @@ def answer (op : String) (args : List String) : String :=
   | _, _ => "badreq"
 
 /-! ## Oracles: spec-level checks of the crate's own answers -/
+
+/-! Known findings about C01, each one table entry of npm's desugaring that the crate reads
+differently.  `Known.sat k2 k3` is npm's semantics with exactly those entries replaced; an oracle
+failure that disappears under a replacement is that known finding, any other failure is a new
+violation.
+* K2: `<M` (wildcard minor) is read as `<M.0.0` where npm says `<M.0.0-0`, and `^0` as `<1.0.0-0`
+  where npm says `>=0.0.0 <1.0.0-0` (both pinned by the crate's own test suite: `intersection::multiple`,
+  `tests::caret_zero`); they differ from npm only on prereleases admitted through another tagged
+  comparator of the same alternative.
+* K3: `<=M` / `<=M.m` whose bumped component is MAX_SAFE_INTEGER: npm's `<(M+1).0.0-0` is not a
+  valid comparator (node-semver throws), the crate reads `<=M.MAX.MAX` and accepts. -/
+namespace Known
+open Semver.Spec Semver.Spec.Npm
+
+def simpleComps (k2 k3 : Bool) (s : Simple) : Option (List Comp) :=
+  match s with
+  | .caret (.maj 0) => if k2 then checked [⟨.lt, pre0 1 0 0⟩] else s.comps.bind id
+  | .prim .lt (.maj M) => if k2 then checked [⟨.lt, rel M 0 0⟩] else s.comps.bind id
+  | .prim .le (.maj M) => if k3 && M == MAX then checked [⟨.le, rel M MAX MAX⟩] else s.comps.bind id
+  | .prim .le (.majMin M m) => if k3 && m == MAX then checked [⟨.le, rel M m MAX⟩] else s.comps.bind id
+  | s => s.comps.bind id
+
+def altComps (k2 k3 : Bool) : Alt → Option (List Comp)
+  | .hyphen lo hi => Npm.hyphen lo hi
+  | .simples l =>
+    let cs := l.filterMap (simpleComps k2 k3)
+    if cs.isEmpty then none else some cs.flatten
+
+def sat (k2 k3 : Bool) (r : Ast) (v : Version) : Bool :=
+  r.any (fun a => match altComps k2 k3 a with
+    | some cs => compsSat cs v
+    | none => false)
+
+end Known
 
 namespace Oracle
 open Semver.Spec
@@ -447,6 +547,22 @@ def check (op : String) (args : List String) (impl : String) : List (String × S
       setLaw ["C15"] "result of the composition ≠ its set meaning" g (fun v => R.within v == ex.denote v)
     | some _, none => [("C15", "result of a composition does not re-parse")]
     | _, _ => []
+  | "npm", [ast, _, v] =>
+    if impl == "panic" then [("C06", "satisfies panicked")] else
+    match AstCodec.decAst ast, decodeVersion v with
+    | some r, some v =>
+      -- the property quantifies over versions with components in [0, MAX_SAFE_INTEGER]
+      if v.major > Npm.MAX || v.minor > Npm.MAX || v.patch > Npm.MAX then [] else
+      let want := Npm.Ast.sat r v
+      if impl == "perr" then
+        (if want && Known.sat true true r v then [("C01", s!"parse failed but npm admits {showV v}")] else [])
+      else if impl == b01 want then []
+      else
+        if impl == b01 (Known.sat true false r v) then [("C01", s!"K2-pinned-by-tests crate {impl} npm {b01 want} at {showV v}")]
+        else if impl == b01 (Known.sat false true r v) then [("C01", s!"K3-le-at-max crate {impl} npm {b01 want} at {showV v}")]
+        else if impl == b01 (Known.sat true true r v) then [("C01", s!"K2+K3 crate {impl} npm {b01 want} at {showV v}")]
+        else [("C01", s!"satisfies: crate {impl}, npm desugaring {b01 want} at {showV v}")]
+    | _, _ => []
   | "vround", [_] =>
     if impl == "perr" || impl == "ok same=1 fixed=1" then [] else [("C12", s!"print/parse round trip: {impl}")]
   | "serdev", [_] =>
@@ -524,7 +640,7 @@ def oracles (op : String) (args : List String) (impl : String) : List (String ×
 partial def loop (h : IO.FS.Stream) (out : IO.FS.Stream) : IO Unit := do
   let line ← h.getLine
   if line.isEmpty then return ()
-  let line := (line.dropRightWhile (fun c => c == '\n' || c == '\r'))
+  let line := String.ofList (line.toList.reverse.dropWhile (fun c => c == '\n' || c == '\r')).reverse
   let fields := line.splitOn "\t"
   match fields with
   | op :: rest =>
@@ -541,7 +657,36 @@ partial def loop (h : IO.FS.Stream) (out : IO.FS.Stream) : IO Unit := do
   | [] => out.putStrLn "BAD"
   loop h out
 
-def main : IO Unit := do
-  let stdin ← IO.getStdin
-  let stdout ← IO.getStdout
-  loop stdin stdout
+/-- `driver gen-npm <seed> <count>`: request lines `npm<TAB>tree<TAB>text<TAB>version<TAB>?` whose text
+is rendered from the tree by `Spec.Npm.genAst`; the harness fills in the crate's answers -/
+def genNpm (seed count : Nat) : IO Unit := do
+  let out ← IO.getStdout
+  let mut g : Semver.Spec.Npm.Gen := ⟨seed * 2654435761 + 12345⟩
+  for i in [0:count] do
+    let (r, g1) := Semver.Spec.Npm.randAst g (i % 3 == 0)
+    let (t, g2) := Semver.Spec.Npm.genAst g1 r
+    g := g2
+    let grid := Semver.Spec.Npm.Ast.grid r
+    -- a bounded, seed-dependent sample of the grid
+    let n := grid.length
+    let mut k := 0
+    let mut g3 := g
+    let enc := AstCodec.encAst r
+    let txt := Codec.encodeText t
+    while k < 10 && n > 0 do
+      let (j, g4) := g3.below n
+      g3 := g4
+      out.putStrLn s!"npm\t{enc}\t{txt}\t{Codec.encodeVersion grid[j]!}\t?"
+      k := k + 1
+    g := g3
+
+def main (args : List String) : IO Unit := do
+  match args with
+  | ["gen-npm", seed, count] =>
+    match seed.toNat?, count.toNat? with
+    | some s, some c => genNpm s c
+    | _, _ => IO.eprintln "usage: driver gen-npm <seed> <count>"
+  | _ =>
+    let stdin ← IO.getStdin
+    let stdout ← IO.getStdout
+    loop stdin stdout
